@@ -125,3 +125,11 @@ From XV Require Gen.T9text Proofs.Text_C11.
 Theorem C11_hand_modelled_functions_read_as_validated : Text_C11.all_frozen.
 Proof. exact Text_C11.all_frozen_holds. Qed.
 Print Assumptions C11_hand_modelled_functions_read_as_validated.
+
+(* every fit of a rotator starts from an unsorted state and every use of the sorted order is guarded by the flag (the protocol of Model/FlagState.v as
+   regenerated from the source by T5flag): a second fit of the same rotator object cannot inherit the order of the first *)
+From XV Require Gen.T5flag Proofs.Flag_tie.
+Theorem C11_flag_protocol_matches_source :
+  T5flag.flag_protocol = [("EOFRotator", (true, true)); ("CPCCARotator", (true, true)); ("POP", (true, true))]%string.
+Proof. exact Flag_tie.flag_protocol_faithful. Qed.
+Print Assumptions C11_flag_protocol_matches_source.
